@@ -110,7 +110,10 @@ class CallbackSpec:
         return f"{type(self).__name__}({self.func!r}, is_convention={self.is_convention!r})"
 
     def __str__(self):
-        name = getattr(self.func, "__name__", self.func)
+        if self.reference is SpecReference.PROPERTY:
+            name = self.attr_name  # a `property` object has no `__name__` (before Python 3.13)
+        else:
+            name = getattr(self.func, "__name__", self.func)
         if self.expected_value is False:
             name = f"!{name}"
         return name
